@@ -37,9 +37,12 @@ def gen_graph_ws(root, rng, unique):
     n = rng.randint(4, 9)
     names = [f"n{i}" for i in range(n)]
     placed = []
+    flat = unique and rng.random() < 0.3      # everything in the root conftest: no invisible edges, nothing excusable
+    if flat:
+        ws.features.add(("flat",))
     for nm in names:
         reps = 1 if unique or rng.random() < 0.5 else rng.randint(2, 3)
-        for f in rng.sample(sorted(files), reps):
+        for f in (["conftest.py"] if flat else rng.sample(sorted(files), reps)):
             placed.append([nm, f, [], rng.choice(SCOPES)])
     for p in placed:
         k = rng.choice([0, 1, 1, 2, 3])
@@ -262,8 +265,20 @@ def run(ctx):
                         ctx.violation({"kind": "cycle-report-varies-between-runs"}, {"a": sorted(base[1]), "b": sorted(s[1]), "spec": ws.spec}, files=ws.files)
                     break
             ctx.sample({"spec": ws.spec})
-            if i < (4 if quick else 60):
+            if i < (10 if quick else 60):
                 server_diagnostics(ctx, ws, model)
+            if i == 0:
+                # directed: one fixture with several narrower dependencies, a hub with two cycles
+                droot = ctx.scratch("directed")
+                dws = gen.WS(droot)
+                dws.files = {"conftest.py": HDR + fx("tmp_user", [], "function") + fx("tmp_db", [], "module") + fx("sess", [], "session")
+                             + fx("app", ["tmp_user", "sess", "tmp_db"], "session") + fx("worker", ["app", "tmp_db", "tmp_user"], "package"),
+                             "test_mod.py": "def test_t(app, worker):\n    pass\n"}
+                dws.spec = {"directed": "several narrower dependencies on one fixture", "depth": 0, "names": []}
+                write_tree(droot, dws.files)
+                server_diagnostics(ctx, dws, dws.model())
+                ctx.nontrivial(("directed_multi_mismatch",))
+                shutil.rmtree(droot, ignore_errors=True)
             ctx.count("graphs")
             shutil.rmtree(root, ignore_errors=True)
     finally:
